@@ -15,7 +15,7 @@ RULE = (
     "inf/nan, Decimals, strings incl. empty/blank-like, Markup, lists, dicts, ranges, the empty/blank literals; "
     "data-bound and literal forms) x the operators == != <> < > <= >= contains and bare truthiness, rendered "
     "through a real {% if %} (exhaustive in both tiers) and through unless / elsif / unless-elsif / ternary / "
-    "ternary-without-else / case-when (a seeded sixth of the pairs per form in the quick tier, all pairs in the "
+    "ternary-without-else / case-when (a seeded eighth of the pairs per form in the quick tier, all pairs in the "
     "thorough tier); stream trees: every and/or/not tree shape of depth <= 3 (2776 shapes) printed fully "
     "parenthesised, minimally parenthesised and with no parentheses, rendered under all 8 assignments of three "
     "boolean variables, plus seeded random shapes of depth 4 and mixed-value trees with comparison leaves; stream "
@@ -419,6 +419,7 @@ class OpsStream(Stream):
     parallel = True
 
     def cases(self, ctx):
+        self.parallel = ctx.tier == "thorough"  # a process pool is unreliable on a loaded machine at quick sizes
         lat = lattice()
         out = []
         for a in lat:
@@ -431,8 +432,8 @@ class OpsStream(Stream):
             if ctx.tier == "thorough":
                 chosen = pairs
             else:
-                k = rng.range(0, 5)
-                chosen = [p for i, p in enumerate(pairs) if i % 6 == k]
+                k = rng.range(0, 7)
+                chosen = [p for i, p in enumerate(pairs) if i % 8 == k]
             for a, b in chosen:
                 out.append({"form": form, "a": a, "b": b})
         return out
